@@ -778,6 +778,10 @@ def compute_kdf_context(
     l1: int,
     l2: int,
 ) -> bytes:
+    for idx in [l0, l1, l2]:
+        if idx < -(2**31) or idx >= 2**31:
+            raise ValueError(f"Group key identifier index {idx} is not a valid signed 32-bit integer")
+
     return b"".join(
         [
             key_guid.bytes_le,
